@@ -814,8 +814,11 @@ namespace ip {
 				assert(m_bytes_in_flight >= acked_bytes);
 				m_bytes_in_flight -= acked_bytes;
 
-				// potentially resend packets
-				while (!m_outgoing_packets.empty()
+				// potentially resend packets. A retransmitted segment may be
+				// dropped again right away (and re-queued by packet_dropped()),
+				// so only consider the segments that are waiting now
+				std::size_t resend = m_outgoing_packets.size();
+				while (resend-- > 0 && !m_outgoing_packets.empty()
 					&& m_bytes_in_flight
 						+ int(m_outgoing_packets.front().buffer.size()) <= m_cwnd)
 				{
